@@ -36,10 +36,11 @@ const (
 	opBigID           // id 300 (refused on v1)
 	opOutside         // raw id outside the dialect (refused)
 	opNil             // nil message (refused)
+	opRawBigID        // already encoded (raw) message of the dialect with id 300 (refused on v1: the Node path hands raw messages to the writer)
 	nOps
 )
 
-var opNames = []string{"decoded", "raw", "ext", "id300", "outside", "nil"}
+var opNames = []string{"decoded", "raw", "ext", "id300", "outside", "nil", "rawid300"}
 
 func opMessage(op int, i int) message.Message {
 	switch op {
@@ -53,6 +54,8 @@ func opMessage(op int, i int) message.Message {
 		return &common.MessageProtocolVersion{Version: 200}
 	case opOutside:
 		return &message.MessageRaw{ID: 999999, Payload: []byte{1}}
+	case opRawBigID:
+		return &message.MessageRaw{ID: 300, Payload: []byte{200, 0, 1}}
 	}
 	return nil
 }
@@ -168,7 +171,7 @@ func evalHistoryFrom(c *hcase, pre writer) (string, int) {
 		if p := bx.Catch(func() { err = w.Write(opMessage(op, i)) }); p != "" {
 			return p
 		}
-		refuse := op == opOutside || op == opNil || (op == opBigID && c.Conf.Version == 1)
+		refuse := op == opOutside || op == opNil || ((op == opBigID || op == opRawBigID) && c.Conf.Version == 1)
 		if refuse {
 			if err == nil {
 				return fmt.Sprintf("write %d (%s) must be refused", i, opNames[op])
@@ -218,7 +221,7 @@ func evalHistoryFrom(c *hcase, pre writer) (string, int) {
 			return "wrong message id"
 		}
 		base, _ := def.Sizes()
-		if !f.V2 && op != opRaw && len(f.Payload) != base {
+		if !f.V2 && op != opRaw && op != opRawBigID && len(f.Payload) != base {
 			return fmt.Sprintf("v1 payload has %d bytes, base size without extensions is %d", len(f.Payload), base)
 		}
 		if c.Conf.Key {
@@ -428,7 +431,7 @@ func main() {
 			// state = (conf, emitted mod 256)
 			em := j.off
 			for _, op := range c.Ops {
-				if !(op == opOutside || op == opNil || (op == opBigID && j.c.Version == 1)) {
+				if !(op == opOutside || op == opNil || ((op == opBigID || op == opRawBigID) && j.c.Version == 1)) {
 					em++
 				}
 				states.AddString(fmt.Sprint(j.c, em%256))
@@ -441,7 +444,7 @@ func main() {
 	// full-period runs: 600 accepted writes of each kind, and mixed
 	for _, c := range confs {
 		for op := 0; op < nOps; op++ {
-			if op == opOutside || op == opNil || (op == opBigID && c.Version == 1) {
+			if op == opOutside || op == opNil || ((op == opBigID || op == opRawBigID) && c.Version == 1) {
 				continue
 			}
 			hc := hcase{Conf: c, Ops: make([]int, 600)}
